@@ -251,6 +251,8 @@ func (x *run) observe() {
 				m["want"], m["n"], m["match"] = want, len(b), x.match(b, true, o)
 			}
 			p.close()
+		} else {
+			m["err"] = err.Error()
 		}
 		x.obs(m)
 	}
@@ -496,6 +498,7 @@ func main() {
 	crash := flag.String("crash", "", "write reopen observations of frozen disk images to this trace")
 	every := flag.Int("freeze-every", 1, "freeze at every k-th file mutation")
 	work := flag.String("work", "", "scratch directory")
+	only := flag.Int("only", -1, "run only the scenario with this index (debugging)")
 	flag.Parse()
 	hx.QuietLogs()
 	config.GetSyncerConfig().Channel = &config.ChannelConfig{VerifyCrc: true}
@@ -529,6 +532,9 @@ func main() {
 				continue
 			}
 			id += *shards
+			if *only >= 0 && i != *only {
+				continue
+			}
 			r := hx.NewRng(*seed*1009 + uint64(i)*2 + uint64(len(be)))
 			x := &run{r: r, tr: tr, disk: be == "disk", readers: map[int]*pump{}, wl: -1, wr: -1, label: "runA",
 				logSize: int64(4 + r.Intn(8))}
